@@ -208,6 +208,27 @@ Definition go_search_ok (n : Z) (f : Z -> option bool) : bool := match go_search
 Definition go_atomic_cas32 (old new : Z) (x : Z) : Z * bool := if x =? old then (new, true) else (x, false).
 Definition go_atomic_add32 (d : Z) (x : Z) : Z * Z := let v := wrapS 32 (x + d) in (v, v).
 
+(* `for { body }` anywhere in a unit with fuel: at most fuel rounds; a round falls through (Next: next round), breaks
+   (Return (inl (inl state))), continues (Return (inl (inr state)): next round) or returns from the function
+   (Return (inr results)); out of fuel is Panic *)
+Fixpoint go_loop {S R} (fuel : nat) (body : S -> ctl S ((S + S) + R)) (s : S) : ctl S R :=
+  match fuel with
+  | O => Panic
+  | Datatypes.S k => match body s with
+                     | Next s' => go_loop k body s'
+                     | Return (inl (inl b)) => Next b
+                     | Return (inl (inr c)) => go_loop k body c
+                     | Return (inr r) => Return r
+                     | Panic => Panic
+                     end
+  end.
+
+(* copy(dst, src): the first min(len dst, len src) elements of dst are replaced *)
+Definition go_copy {A} (dst src : list A) : list A :=
+  firstn (length dst) src ++ skipn (length src) dst.
+(* handing a package over (handleConn / protocol.Recv): the package is appended to what was delivered *)
+Definition go_deliver (p : list N) : list (list N) := [p].
+
 (* `for { body }` of a unit with fuel: the body falls through (next iteration: the unit again, with the fuel left),
    breaks (Return (inl state)) or returns (Return (inr results)) *)
 Definition go_iter {S B S' R} (c : ctl S (B + R)) (kbreak : B -> ctl S' R) (knext : S -> ctl S' R) : ctl S' R :=
@@ -220,3 +241,12 @@ Definition go_iter {S B S' R} (c : ctl S (B + R)) (kbreak : B -> ctl S' R) (knex
 
 (* the representation invariant of []byte / string values *)
 Definition bytes_ok (l : list N) : Prop := Forall (fun b => (b < 256)%N) l.
+
+(* error values (units with ErrVals): nil, errors.New(text), a pointer to the package's error struct *)
+Inductive go_error (E : Type) : Type := GoErrNil | GoErrNew (text : list N) | GoErrVal (e : E).
+Arguments GoErrNil {E}.
+Arguments GoErrNew {E} text.
+Arguments GoErrVal {E} e.
+
+(* maps with string keys (units with StrMaps): the list of insertions in order; m[k] = v appends *)
+Definition go_smap_put {V} (m : list (list N * V)) (k : list N) (v : V) : list (list N * V) := m ++ [(k, v)].
